@@ -260,7 +260,9 @@ class _Ttl:
         self.anon_obj = {b for b, o in occ.items() if len(o) == 1 and o[0][0] == 2}
         self.anon_subj = {b for b, o in occ.items() if all(pos == 0 for pos, _ in o) and len({gk for _, gk in o}) == 1}
         self.occ_count = {b: len(o) for b, o in occ.items()}
+        self.occ_all = occ
         self.use_anon = st.random() < 0.5
+        self.use_nest = st.random() < 0.5
         nss = []
         for q in quads:
             for t in q:
@@ -342,6 +344,10 @@ class _Ttl:
         if t[0] == "b":
             if position == "o" and t[1] in getattr(self, "lists_now", {}):
                 return "( " + " ".join(self.term(m) for m in self.lists_now[t[1]]) + " )" if self.lists_now[t[1]] else "()"
+            if position == "o" and t[1] in getattr(self, "nest_now", {}):
+                # a blank node property list: the node's own statements inside the brackets
+                inner = " ; ".join(self.term(p2, True) + " " + self.term(o2, position="o") for p2, o2 in self.nest_now[t[1]])
+                return "[ " + inner + (" ]" if self.n3 else st.choice([" ]", " ; ]", "]"]))
             if self.use_anon and ((position == "o" and t[1] in self.anon_obj) or (position == "s1" and t[1] in self.anon_subj)) and st.random() < 0.7:
                 return st.choice(["[]", "[ ]"])
             return "_:" + t[1]
@@ -375,9 +381,41 @@ class _Ttl:
                     self.lists_now[head] = members
                     gone = {c[1] for c in cells}
                     triples = [t for t in triples if not (t[0][0] == "b" and t[0][1] in gone)]
+        self.nest_now = {}
+        if self.use_nest:
+            # blank nodes that are the object of exactly one statement of this block, name no graph, and have all their own
+            # statements in this block may be written in place as [ p o ; ... ] (nested to any depth, never in a cycle)
+            stmts, parent = {}, {}
+            for s, p, o in triples:
+                if s[0] == "b":
+                    stmts.setdefault(s[1], []).append((p, o))
+                if o[0] == "b":
+                    parent.setdefault(o[1], []).append(s)
+            for b, sts in stmts.items():
+                occ = self.occ_all.get(b, [])
+                if (
+                    sum(1 for pos, _ in occ if pos == 2) == 1
+                    and not any(pos == 3 for pos, _ in occ)
+                    and len(sts) == sum(1 for pos, _ in occ if pos == 0)
+                    and len(parent.get(b, [])) == 1
+                    and b not in self.lists_now
+                    and not any(p[1] in (RDF + "first", RDF + "rest") for p, _ in sts)
+                    and st.random() < 0.6
+                ):
+                    self.nest_now[b] = sts
+            for b in list(self.nest_now):
+                cur, seen = b, set()
+                while cur is not None and cur in self.nest_now and cur not in seen:
+                    seen.add(cur)
+                    par = parent[cur][0]
+                    cur = par[1] if par[0] == "b" else None
+                if cur is not None and cur in seen:
+                    del self.nest_now[b]
         by_s = {}
         order = []
         for s, p, o in triples:
+            if s[0] == "b" and s[1] in self.nest_now:
+                continue
             k = json.dumps(s)
             if k not in by_s:
                 by_s[k] = (s, [])
@@ -387,6 +425,14 @@ class _Ttl:
         out = []
         for k in order:
             s, pos = by_s[k]
+            if indent == "" and not self.n3 and len(self.prefixes) > 1 and st.random() < 0.08:
+                # two prefix labels change places in the middle of the document: a label means what its latest declaration says
+                items = sorted(self.prefixes.items())
+                st.shuffle(items)
+                (n1, l1), (n2, l2) = items[:2]
+                out.append(st.choice(["@prefix %s: <%s> .", "PREFIX %s: <%s>"]) % (l1, n2))
+                out.append(st.choice(["@prefix %s: <%s> .", "PREFIX %s: <%s>"]) % (l2, n1))
+                self.prefixes[n1], self.prefixes[n2] = l2, l1
             if indent == "" and self.base and len(self.base_cands) > 1 and st.random() < 0.25:
                 # a second base directive in the middle of the document: the same relative text now means another IRI
                 new = st.choice([b for b in self.base_cands if b != self.base])
@@ -414,6 +460,13 @@ class _Ttl:
             tail = st.choice([" .", ".", " ;\n" + indent + ".", " ; ."])
             # (without a label only if every statement about the node is in this very statement)
             whole = s[0] == "b" and len(pos) == self.occ_count.get(s[1])
+            if whole and self.use_nest and not self.n3 and s[1] in self.anon_subj and st.random() < 0.35:
+                # [ p o ; ... ] q r .  - some of the node's statements inside the brackets, the others (or none) after them
+                k2 = st.randint(1, len(pos))
+                inner = " ; ".join(self.term(p, True) + " " + self.term(o, position="o") for p, o in pos[:k2])
+                outer = " ; ".join(self.term(p, True) + " " + self.term(o, position="o") for p, o in pos[k2:])
+                out.append(f"{indent}[ {inner} ]" + (" " + outer if outer else "") + " .")
+                continue
             out.append(f"{indent}{self.term(s, position='s1' if whole else None)} " + semi.join(parts) + tail)
             if st.random() < 0.15:
                 out.append(indent + "# comment . <x> ;")
